@@ -862,6 +862,11 @@ def judge_cont(c, impl, model, findings, stats, verbose=False):
         want = "false"
     elif m.startswith("error "):
         want = "error:" + canon_result(m[6:])
+    elif m.split(" ")[0] in ("oom", "oof", "fuel", "timeout"):
+        # the model ran out of fuel / out of its domain on this program: it says nothing about it, so the
+        # case is skipped and counted (it is neither an agreement nor evidence against the implementation)
+        stats["model_undecided"] = stats.get("model_undecided", 0) + 1
+        return True
     else:
         findings.append(core.Finding("disagreement", dict(sig, what="model-" + m.split(" ")[0]),
                                      "the model does not speak about this program: %s" % m[:100], keep))
